@@ -97,8 +97,11 @@ def run_process(ctx, windows, dt, cfg):
     """windows: list of (ns, ew, vt) arrays. Fresh recording objects for every call.
     Returns (curves[n_az?][n_windows, nfc] as list of 2-D arrays, n_fft, error)."""
     import hvsrpy
-    recs = [gen.make_recording(np.array(w[0], copy=True), np.array(w[1], copy=True), np.array(w[2], copy=True), dt)
-            for w in windows]
+    # the windows carry whatever sensor orientation they were recorded / preprocessed with: process() works in the
+    # sensor's own frame (azimuths are measured from the sensor's north component), so the orientation must not matter
+    orient = cfg.get("sensor_degrees_from_north") or [0.0] * len(windows)
+    recs = [gen.make_recording(np.array(w[0], copy=True), np.array(w[1], copy=True), np.array(w[2], copy=True), dt,
+                               degrees_from_north=float(o)) for w, o in zip(windows, orient)]
     st = make_settings(cfg)
     probe.TRACE.clear()
     ctx.count("process_calls")
@@ -164,6 +167,7 @@ def fam_reference(ctx, rng, kind=None):
     amp = gen.scale(rng)
     windows = [gen.recording_arrays(rng, L, fam, amp) for _ in range(nwin)]
     cfg = gen_cfg(rng, dt, L, kind)
+    cfg["sensor_degrees_from_north"] = [float(rng.choice([0.0, 0.0, 30.0, 90.0, 217.5, float(rng.uniform(0, 360))])) for _ in windows]
     ctx.describe(dt=dt, L=L, nwin=nwin, signal=fam, amp=amp, **cfg_info(cfg))
     curves, n, err = run_process(ctx, windows, dt, cfg)
     n_used = n if n is not None else max(gen.nextpow2(L), cfg["user_n"] or 0)
@@ -230,6 +234,7 @@ def fam_closed_form(ctx, rng):
     cfg = gen_cfg(rng, dt, L)
     # closed form needs only linearity of the smoother: restrict fcs to where windows are surely non-empty
     n_fft = max(gen.nextpow2(L), cfg["user_n"] or 0)
+    cfg["sensor_degrees_from_north"] = [float(rng.choice([0.0, 45.0, 300.0]))]
     ctx.describe(dt=dt, L=L, A=A, B=B, C=C, **cfg_info(cfg))
     windows = [(A * s, B * s, C * s)]
     curves, n, err = run_process(ctx, windows, dt, cfg)
@@ -329,7 +334,8 @@ def fam_reference_mixed_dt(ctx, rng):
     cfg["fcs"] = cfg["fcs"] * min(1.0, 0.9 * (0.5 / max(dts)) / cfg["fcs"].max())
     windows = [gen.recording_arrays(rng, n, None, 1.0) for n in L]
     ctx.describe(dts=dts, lengths=L, variant=variant, **cfg_info(cfg))
-    recs = [gen.make_recording(w[0], w[1], w[2], dt) for w, dt in zip(windows, dts)]
+    recs = [gen.make_recording(w[0], w[1], w[2], dt, degrees_from_north=float(rng.choice([0.0, 0.0, 30.0, 217.5])))
+            for w, dt in zip(windows, dts)]
     st = make_settings(cfg)
     ctx.count("process_calls")
     try:
